@@ -44,7 +44,7 @@ SPEC("pane.converters", "ConditionalConverter.collect_errors",
 
 SPEC("pane.converters", "ConditionalConverter.into_data",
      shapes={"self.inner": "conv"},
-     ensures=[(lambda self, val, result: result == ser(self.inner, val), ["C13", "C05"], "ser")],
+     ensures=[(lambda self, val, result: result == ser(self.inner, val), ["C13", "C05", "C06"], "ser")],
      no_raise=["C13"])
 
 # ---------------------------------------------------------------------------------------------
@@ -189,4 +189,4 @@ SPEC("pane.converters", "TaggedUnionConverter.into_data",
                        mhas(result, sat(self.external, 0)) and mget(result, sat(self.external, 0)) == dynattr(val, self.tag) and
                        mhas(result, sat(self.external, 1)) and
                        mget(result, sat(self.external, 1)) == ser(sat(self.converters, int_key(mget(self.tag_map, dynattr(val, self.tag)))), val))),
-               ["C12", "C05"], "ser")])
+               ["C12", "C05", "C06"], "ser")])
